@@ -77,7 +77,11 @@ RULES = [
     ("addi {a: u4}, {b: u4}", "0x2 @ a @ b @ 0x0", ["u4", "u4"]),
     ("jmp {addr: u16}", "0x30 @ addr", ["u16"]),
     ("st [{addr: u16}], {v: i8}", "0x40 @ addr @ v", ["u16", "i8"]),
+    ("ldi {v}", "asm { ld {v} }", ["u8"]),          # asm block: diagnostics nest instruction -> rule -> asm line -> rule
+    ("ldf {v}", "0x12 @ lim8(v)", ["u8"]),          # user function with an assertion (defined next to the rules or in the library file)
 ]
+
+FN_LINES = ["#fn lim8(x) =>", "{", "    assert(x < 0x100)", "    x`8", "}"]
 
 
 def rng_range(t):
@@ -122,6 +126,7 @@ class Prog:
         self.body = {}           # file -> (first, last+1) index range of lines where statements may be inserted
         self.eol = "\n"
         self.final_eol = True
+        self.bank = None         # {"file", "fields": [(line index, field name)]} of a multi-line #bankdef block
 
     def text(self, name):
         t = self.eol.join(self.files[name])
@@ -164,6 +169,42 @@ def gen_program(rng):
     for r in RULES:
         isa.append(decorate(rng, "    %s => %s" % (r[0], r[1]), p_na * 0.5))
     isa.append("}")
+    fn_in_lib = lib_include and rng.chance(0.4)
+    fn_lines = [decorate(rng, l, p_na * 0.5) if l.startswith(("#fn", "    ")) else l for l in FN_LINES]
+    if not fn_in_lib:
+        isa += fn_lines
+
+    # optional bank definition written over several lines (in the main file or in an included banks.asm)
+    bank = None
+    if rng.chance(0.55):
+        hashed = rng.chance(0.4)
+
+        def field(name, value):
+            if value is None:
+                return ("#" + name) if hashed else name
+            return ("#%s %s" % (name, value)) if hashed else ("%s = %s" % (name, value))
+        fl = [("addr", rng.choice(["0x0", "0", "0x0000"])), ("size", rng.choice(["0x8000", "0x10000", "32768"])), ("outp", "0")]
+        if rng.chance(0.4):
+            fl.append(("bits", "8"))
+        if rng.chance(0.3):
+            fl.append(("fill", None))
+        fl = rng.shuffle(fl)
+        blines = []
+        if rng.chance(p_na):
+            blines.append(comment(rng, True))
+        blines.append("#bankdef " + rng.choice(["prog", "rom", "main_bank"]))
+        blines.append("{")
+        fidx = []
+        for k, (n, v) in enumerate(fl):
+            t = rng.choice(["    ", "\t", "  "]) + field(n, v)
+            if k + 1 < len(fl) and rng.chance(0.4) and not (hashed and v is None):
+                t += ","
+            if rng.chance(p_na * 0.6):
+                t += " " + comment(rng, True)
+            fidx.append((len(blines), n))
+            blines.append(t)
+        blines.append("}")
+        bank = {"lines": blines, "fields": fidx, "in_include": rng.chance(0.5)}
 
     nlabels = rng.range(1, 4)
     names = rng.shuffle(["start", "loop", "data", "table", "finish", "entry"])[:nlabels]
@@ -203,6 +244,8 @@ def gen_program(rng):
                 out.append(("instr", instr_text(rng, r, args)))
             elif k == 6:
                 out.append(("data", "#d8 " + ", ".join(str(rng.range(0, 255)) for _ in range(rng.range(1, 4)))))
+            elif k == 7 and rng.chance(0.5):
+                out.append(("data", "#d8 lim8(%d)" % rng.range(0, 255)))
             elif k == 7:
                 out.append(("data", "#d16 0x%04x" % rng.range(0, 65535)))
             elif k == 8:
@@ -228,6 +271,14 @@ def gen_program(rng):
         main.append(decorate(rng, '#include "cpu.asm"', p_na * 0.5))
     else:
         main += isa
+    if bank is not None:
+        if bank["in_include"]:
+            p.files["banks.asm"] = bank["lines"]
+            main.append(decorate(rng, '#include "banks.asm"', p_na * 0.5))
+            p.bank = {"file": "banks.asm", "fields": bank["fields"]}
+        else:
+            p.bank = {"file": "main.asm", "fields": [(len(main) + i, n) for (i, n) in bank["fields"]]}
+            main += bank["lines"]
     body_first = len(main)
     for c in consts:
         main.append(decorate(rng, "%s = %s" % (c, rng.choice(["5", "0x10", "1 + 2", "0xff"])), p_na))
@@ -246,11 +297,13 @@ def gen_program(rng):
         main.append(comment(rng, True))
     p.files["main.asm"] = main
     p.body["main.asm"] = (body_first, body_last)
-    p.order = ["main.asm"] + (["cpu.asm"] if isa_in_include else [])
+    p.order = ["main.asm"] + (["cpu.asm"] if isa_in_include else []) + (["banks.asm"] if "banks.asm" in p.files else [])
     if lib_include:
         lib = []
         if rng.chance(p_na):
             lib.append(comment(rng, True))
+        if fn_in_lib:
+            lib += fn_lines
         first = len(lib)
         for (k, s) in statements(rng.range(2, 7), lib_names, symbols, local_ok=False):
             lib.append(decorate(rng, s, p_na) if k != "blank" else s)
@@ -274,7 +327,8 @@ FAULT_TEXTS = {
     "unknown_instruction": ["foo", "ldx 5", "mov 1, 2", "halt 1", "nop 3", "ld", "jmp", "addi 1", "st 5, 5", "xyz [1], 2", 'foo "é"', 'ld "あ", 1'],
     "undefined_symbol": ["ld nosuch", "jmp missing", "jmp .nolocal", "#d8 nosuch", "#d16 undefined_value + 1", "st [missing], 0", "addi 1, nosuch", '#d16 "é", nosuch', '#d "日本語", nosuch'],
     "out_of_range": ["ld 256", "ld -1", "lds 128", "lds -129", "addi 16, 0", "addi 0, 16", "jmp 0x10000", "st [0x10000], 0", "st [0], 256", "st [0], -129",
-                     "#d8 256", "#d8 1, 2, 0x100", "#d16 -32769", '#d8 "é"', '#d16 "é", 0x10000', '#d8 "a", "😀"'],
+                     "#d8 256", "#d8 1, 2, 0x100", "#d16 -32769", '#d8 "é"', '#d16 "é", 0x10000', '#d8 "a", "😀"',
+                     "ldi 300", "ldi -1", "ldf 256", "ldf 0x1ff", "#d8 lim8(999)", "ld lim8(0x100)", "#d16 0x12 @ lim8(256)"],
     "malformed_directive": ["#res", "#align", "#bogus 1", "#d8 1 2", "#d8 ,", "#d8 1 +", "#include", "#d8 (1", "#res 1 2", "#addr", "#d8 1,, 2",
                             "#align 0", "#bankdef", "#bits", "#d", "#d8", "#d16", "zz_new =", "#include 5", "#once 1", "#fn", "#if", "#d8 )", '#d8 "é" 2', '#d16 "é",, 1', '#include "é" 1'],
 }
@@ -336,6 +390,64 @@ def order_key(q, fname, line):
     return (inc[0], line) if inc else (-1, line)
 
 
+BANK_UNKNOWN = ["filll", "adr = 0", "#sizee 4", "outpp = 0", "bitz = 8", "#fil", "address = 0x100", "#labelalignn 2"]
+BANK_BADVALUE = ['bits = "x"', 'labelalign = "é"', "labelalign = 1 +* 2", "labelalign = (1", "#labelalign )"]
+
+
+def inject_bank_field(rng, p, q):
+    """one faulty field line inside the #bankdef block: unknown field, duplicate field or bad value, before field i (or after the last)"""
+    fname = p.bank["file"]
+    fields = p.bank["fields"]
+    sub = rng.choice(["unknown_field", "unknown_field", "duplicate_field", "bad_value"])
+    i = rng.range(0, len(fields))
+    pos = fields[i][0] if i < len(fields) else fields[-1][0] + 1
+    other = None
+    if sub == "unknown_field":
+        stmt = rng.choice(BANK_UNKNOWN)
+    elif sub == "duplicate_field":
+        j = rng.below(len(fields))
+        name = fields[j][1]
+        stmt = rng.choice(["%s = 0x0" % name, "#%s 0" % name]) if name != "fill" else rng.choice(["fill", "#fill"])
+        other = [fname, fields[j][0]]
+    else:
+        present = set(n for (_, n) in fields)
+        stmt = rng.choice([t for t in BANK_BADVALUE if re.match(r"#?([a-z_]+)", t).group(1) not in present])
+    name = re.match(r"#?([A-Za-z_][A-Za-z_0-9]*)", stmt).group(1)
+    lead = rng.choice(["    ", "\t", "  ", ""])
+    if rng.chance(0.3):
+        lead += block_comment(rng) + " "
+    line = lead + stmt
+    # the previous field must be separated from this one: a line break is enough; a trailing comma is allowed too
+    if i < len(fields) and rng.chance(0.4) and sub != "bad_value" and not (stmt.startswith("#") and " " not in stmt):
+        line += ","
+    if rng.chance(0.5):
+        line += " " + comment(rng, True)
+    q.files[fname].insert(pos, line)
+    if other is not None and pos <= other[1]:
+        other[1] += 1
+    ctx = rng.below(3)
+    if ctx == 1:
+        q.files[fname].insert(pos, comment(rng, True))
+        if other is not None and pos <= other[1]:
+            other[1] += 1
+        pos += 1
+    expect = (fname, pos)
+    tok_line = line
+    if other is not None and other[1] > pos:
+        expect, other = (other[0], other[1]), (fname, pos)          # the later occurrence is the duplicate
+        tok_line = q.files[expect[0]][expect[1]]
+    elif other is not None:
+        other = (other[0], other[1])
+    token = None
+    if sub != "bad_value":
+        m = re.search(r"(?<![A-Za-z_0-9])" + re.escape(name) + r"(?![A-Za-z_0-9])", re.sub(r";\*.*?\*;", lambda x: " " * len(x.group(0)), tok_line))
+        token = (len(tok_line[:m.start()].encode("utf-8")), len(name))
+    return {"prog": q, "file": fname, "line": pos, "stmt": stmt, "kind": "malformed_directive", "expect": expect, "other": None,
+            "on_line": "both" if ";*" in line and "; " in line.split("*;")[-1] else "before" if ";*" in line else "after" if ";" in line else "none",
+            "context": ["none", "before", "none"][ctx], "open_ended": False, "situation": "bankdef_" + sub, "next_token": None,
+            "continues": False, "included": fname != q.entry, "token": token, "field_index": i, "field_count": len(fields)}
+
+
 def inject(rng, p, kind):
     """insert one faulty line into a copy of p.  Returns dict(prog, file, line, stmt, expect=(file, line), other=(file, line)|None, ...)
     or None when the kind does not apply (no label to duplicate)."""
@@ -364,6 +476,9 @@ def inject(rng, p, kind):
     else:
         stmt = rng.choice(FAULT_TEXTS[kind])
         pos = rng.range(first, last)
+    # a faulty field inside a multi-line #bankdef block, at every index
+    if kind == "malformed_directive" and p.bank is not None and rng.chance(0.35):
+        return inject_bank_field(rng, p, q)
     # unfinished statements: produce on purpose the situations where the text after the fault line can / cannot continue it
     situation = "random"
     if kind == "malformed_directive":
